@@ -250,6 +250,9 @@ def run_structural(ch, tier, res, tmpdir):
 
 def run_behavioural(ch, tier, res, tmpdir):
     cfg = swarm(ch.s('cfg'), Cfg(sends=True, notify=True, delays=True, bump=True, contracts=True), tier)
+    if ch.s('cfg').flag(1, 3):
+        cfg.history = cfg.force_history = True
+        cfg.max_states = max(cfg.max_states, 8)
     sp = gen_spec(ch.s('chart'), cfg)
     sc = build_api(sp)
     a = Sim(sp, statechart=sc, ignore_contract=False)
